@@ -206,7 +206,12 @@ func SolveAll(obls []*Obligation, dir string, timeout time.Duration, par int) ma
 		go func(o *Obligation) {
 			defer wg.Done()
 			defer func() { <-sem }()
-			r := Solve(o.Script(true), dir, o.Name, timeout, nil)
+			var r SolveResult
+			if len(o.Cases) > 0 && !o.Cover {
+				r = solveCases(o, dir, timeout)
+			} else {
+				r = Solve(o.Script(true), dir, o.Name, timeout, nil)
+			}
 			if !o.Cover && r.Status != "unsat" && r.Status != "sat" && r.Status != "error" {
 				// counterexample search: without the quantified background axioms the
 				// solvers can return a (candidate) model, which replay then validates
@@ -226,4 +231,26 @@ func SolveAll(obls []*Obligation, dir string, timeout time.Duration, par int) ma
 	}
 	wg.Wait()
 	return out
+}
+
+// solveCases discharges an obligation case by case (e.g. one query per return
+// point): unsat iff every case is unsat; the first failing case is reported.
+func solveCases(o *Obligation, dir string, timeout time.Duration) SolveResult {
+	agg := SolveResult{Status: "unsat", All: map[string]string{}}
+	for i, c := range o.Cases {
+		o2 := *o
+		o2.Cases = nil
+		o2.Extra = append(append([]string{}, o.Extra...), c)
+		r := Solve(o2.Script(true), dir, fmt.Sprintf("%s.case%d", o.Name, i), timeout, nil)
+		agg.Seconds += r.Seconds
+		if r.Backend != "" {
+			agg.Backend = r.Backend
+		}
+		if r.Status != "unsat" {
+			r.Seconds = agg.Seconds
+			r.Output = fmt.Sprintf("case %d (%s): %s", i, c, r.Output)
+			return r
+		}
+	}
+	return agg
 }
